@@ -7,7 +7,8 @@
 (* what is replayed through the real quote/split functions and through bash.                               *)
 EXTENDS Integers, Sequences, FiniteSets, TLC
 
-Syms == {"a", "sp", "tab", "nl", "sq", "dq", "bs", "dollar", "hash", "tilde", "star", "eq", "c01", "del", "zdot", "fffd", "xff", "smalltilde", "excl", "semi"}
+Syms == {"a", "sp", "tab", "nl", "sq", "dq", "bs", "dollar", "hash", "tilde", "star", "eq", "c01", "del", "zdot", "fffd", "xff", "smalltilde", "excl", "semi",
+         "nbsp", "ideosp"}      \* U+00A0, U+3000: white space to Unicode, ordinary characters to bash and to the code
 
 \* --- the code: src/arg.rs quote() ---
 \* lossy view of the word: an invalid byte shows up as U+FFFD
